@@ -15,9 +15,12 @@ CLAIM = (
     "the JSON writer emits modelType exactly under cls.serialization.with_model_type with the literal of json_model_type(cls.name), "
     "the reader's check and the dispatch keys use the same function; (4) every PrimitiveType has a parse function and the "
     "if/elif chains over type annotations and our types are exhaustive (EXH1/EXH2); (5) no error value is dropped in the two "
-    "generators (ERR1-3)."
+    "generators (ERR1-3); (6) WR-COND: the XML writer generator and the XML reader generator decide with the same predicate over the "
+    "property's class whether a nested instance is wrapped in / dispatched on a discriminating element."
     " SKIPS: the loops of the functions in scope have no more `continue`, `break` or in-loop `return` statements than the reference "
     "read on the unchanged tree (baselines/skips.json): a new skip means elements that were handled are no longer handled."
+    " LIT-KW: duplicate_curly_brackets / in_backticks / without_enclosing are passed to a literal function only inside "
+    "transform_joined_str (a stand-alone literal emitted with them denotes another text)."
 )
 NOTE = (
     "Not decided: round-trip equality and `only the de-serialization error is raised` - both are properties of the execution of the "
@@ -56,6 +59,25 @@ def run(ctx) -> None:
             ctx.ok("WR-NAME", w, w.node, what=f"{what}: writer {w.name} and reader {r.name} both use naming.{fn}(<x>.name)")
         else:
             ctx.fail("WR-NAME", w, w.node, f"{what}: the writer generator {w.name} names with {sorted(wn)}, the reader generator {r.name} with {sorted(rn)}: what is written is not what is looked up", construct=f"{what}: naming agreement")
+    # the decision "is a class-typed value wrapped in a discriminating element / dispatched" must be the same on both sides
+    ctx.rule("WR-COND", "writer and reader generators decide on the same predicate of the property's class whether a value is wrapped/dispatched", floor=1)
+
+    def type_predicates(f) -> set:
+        out = set()
+        for n in walk_function_body(f.node):
+            if isinstance(n, (ast.If, ast.IfExp)):
+                for t in ([n.test] if not isinstance(n.test, ast.BoolOp) else n.test.values):
+                    txt = ast.unparse(t)
+                    if "our_type." in txt and not txt.startswith(("isinstance(", "not isinstance(")):
+                        out.add(txt.replace("type_anno.items.our_type", "our_type").replace("type_anno.our_type", "our_type").replace("type_annotation.our_type", "our_type"))
+        return out
+
+    xr, xw = p.func(f"{XS}:_generate_reader_and_setter"), p.func(f"{XS}:_generate_write_cls_as_sequence")
+    pr, pw = type_predicates(xr), type_predicates(xw)
+    if pr and pr == pw:
+        ctx.ok("WR-COND", xw, xw.node, what=f"XML reader and writer generators both decide on {sorted(pr)}")
+    else:
+        ctx.fail("WR-COND", xw, xw.node, f"the XML writer generator decides on {sorted(pw)} whether a class-typed value is wrapped in a discriminating element, the reader generator on {sorted(pr)}: for a class on which the two predicates differ the written document cannot be read back", construct="XML wrap/dispatch predicate agreement")
     opt = "isinstance({v}.type_annotation, intermediate.OptionalTypeAnnotation)"
     gen.check_full_iteration(ctx, "WR-ALL", p.func(f"{JS}:_generate_transform"), "properties", "JSON writer")
     gen.check_full_iteration(ctx, "WR-ALL", p.func(f"{JS}:_generate_setter_map"), "properties", "JSON reader map")
@@ -111,3 +133,6 @@ def run(ctx) -> None:
         if _m.name in ("aas_core_codegen.python.lib._generate_jsonization", "aas_core_codegen.python.lib._generate_xmlization"):
             for _f in _m.functions.values():
                 _skips.check_skips(ctx, _f, "SKIPS", _base)
+    ctx.rule("LIT-KW", "interpolation-only options of the literal functions are used only for parts of interpolated strings", floor=4)
+    from ..rules import litkw as _litkw
+    _litkw.check_literal_keywords(ctx, "LIT-KW")
